@@ -627,3 +627,24 @@ example : let f : Func String String := ⟨[⟨"produces", some (.list []), none
 
 end TaskArgs
 end Pytask
+
+namespace Pytask
+namespace TaskArgs
+open PyTree
+variable {V P : Type}
+
+/-- **Task generators receive the same arguments as ordinary tasks.** The separate kwargs loop of
+`provisional.pytask_execute_task` loads dependencies with `is_product=False`, products with
+`is_product=True` and only for parameters of the function — so every statement above about
+`kwargsOf` / `received` (in particular `C07_dependencies_full`, `C07_products_full`) holds for
+`@task(is_generator=True)` functions as well. -/
+theorem C07_generator_kwargs (params : List String) (dependsOn produces : Dict (T (Node V P))) :
+    kwargsOfGen params dependsOn produces = kwargsOf params dependsOn produces := by
+  simp [kwargsOfGen, kwargsOf, Generated.generatorDepsAsProducts, Generated.generatorProductsAsProducts,
+    Generated.generatorProductsNeedParameter, Generated.productsNeedParameter]
+
+theorem C07_generator_received (f : Func V P) (t : Task V P) : receivedGen f t = received f t := by
+  simp [receivedGen, received, C07_generator_kwargs]
+
+end TaskArgs
+end Pytask
